@@ -199,6 +199,8 @@ def undirected_items(tier):
     inputs = [es for es in two if mixing(es)] + [es for es in two if not mixing(es)][:: (12 if tier == "quick" else 3)]
     inputs += [es for es in three if mixing(es)][:: (14 if tier == "quick" else 3)]
     inputs += [es for es in three if not mixing(es)][:: (60 if tier == "quick" else 10)]
+    # sizes differing by two or more (the capacity test of the reshuffle must use each hyperedge's own size)
+    inputs += [((1, 2, 3, 4), (4, 5)), ((1, 2, 3, 4), (1, 5)), ((1, 2, 3, 4, 5), (1, 2)), ((1, 2, 3, 4), (2, 5), (3, 5))]
     for es in inputs:
         sizes = sorted({len(e) for e in es})
         for n_steps in ((0, 1, 2) if tier == "quick" else (0, 1, 2, 3)):
